@@ -160,6 +160,9 @@ _IO_DIR = os.path.join(os.path.dirname(os.path.dirname(os.path.abspath(__file__)
 _io_counter = [0]
 
 
+_last = {"A": None, "B": None, "exc": None}    # key sets / exception of the most recent roundtrip() call
+
+
 def roundtrip(graph, fmt, base=None, bind=None, extra=None, io=None):
     """-> (verdict, detail); verdict 'ok' | 'differs' | 'ser-exc' | 'parse-exc'.
     io=None: serialise to a str and parse data=str.  io in IO_MODES: serialise to a real file
@@ -186,6 +189,7 @@ def roundtrip(graph, fmt, base=None, bind=None, extra=None, io=None):
         except CaseTimeout:
             raise
         except Exception as e:  # noqa: BLE001
+            _last.update(A=None, B=None, exc="ser:" + type(e).__name__)
             return "ser-exc", f"{type(e).__name__}: {e}"[:300]
         try:
             g2 = Graph()
@@ -202,6 +206,7 @@ def roundtrip(graph, fmt, base=None, bind=None, extra=None, io=None):
         except CaseTimeout:
             raise
         except Exception as e:  # noqa: BLE001
+            _last.update(A=None, B=None, exc="parse:" + type(e).__name__)
             return "parse-exc", f"{type(e).__name__}: {e}"[:300] + " | " + repr(data)[:400]
     finally:
         if path is not None:
@@ -211,6 +216,7 @@ def roundtrip(graph, fmt, base=None, bind=None, extra=None, io=None):
                 pass
     A = keys_of_abstract(graph, hext)
     B = keys_of_graph(g2, hext)
+    _last.update(A=A, B=B, exc=None)
     if isomorphic(A, B):
         return "ok", ""
     return "differs", "missing " + repr(sorted(A - B, key=repr)[:3])[:600] + " extra " + repr(sorted(B - A, key=repr)[:3])[:600] \
@@ -406,7 +412,7 @@ def gen_graph(rng):
     bnodes = []
     for _ in range(nshapes):
         shape = rng.choice(["flat", "flat", "tree", "dag", "cycle", "selfloop", "list", "list", "badlist", "orphan",
-                            "listsubj", "nestedlist", "bnodesubj", "type"])
+                            "listsubj", "nestedlist", "bnodesubj", "type", "codelist"])
         tags.append(shape)
         if shape == "flat":
             s = subj()
@@ -468,6 +474,23 @@ def gen_graph(rng):
         elif shape == "bnodesubj":
             b = rng.choice(bnodes) if bnodes else fresh()
             out.append([b, pred(), obj(2) or iri()])
+        elif shape == "codelist":
+            # a collection of blank nodes, each with a multi-line literal of the same shape (same line count, same
+            # length of the last line): the Turtle family writes them on one line as ( [ ... ] [ ... ] )
+            k = rng.choice([2, 3])
+            lines = rng.choice([1, 2])
+            w = rng.choice([1, 3, 6])
+            ch = rng.choice(["\n", "\n", "\r\n", "\r"])
+            members = []
+            pr = pred()
+            for j in range(k):
+                b = fresh()
+                bnodes.append(b)
+                text = ch.join(chr(97 + (j + t) % 26) * w for t in range(lines + 1))
+                out.append([b, pr, L(text, lang=rng.choice([None, None, "en"]))])
+                members.append(b)
+            h = gen_list(rng, out, members, fresh=fresh)
+            out.append([subj(), pred(), h])
         elif shape in ("list", "listsubj", "nestedlist"):
             members = [obj(2) or iri() for _ in range(rng.choice([0, 1, 2, 3]))]
             if shape == "nestedlist":
@@ -751,7 +774,20 @@ def type_iri_unsafe(graph):
     return any(t[1][1] == TYPE and t[2][0] == "I" and type_object_unsafe([t]) for t in graph)
 
 
-def triggers(graph, fmt, base=None, bind=None):
+def _bare_retyped(x):
+    """a valid xsd:boolean written 1 / 0, or a valid xsd:decimal whose lexical form has an exponent: Turtle writes them
+    bare and reads them back as xsd:integer / xsd:double (only with normalize=False or foreign producers)"""
+    if x[3] == XSD + "boolean" and x[1] in ("1", "0"):
+        return True
+    if x[3] == XSD + "decimal" and any(c in x[1] for c in "eE"):
+        try:
+            return Literal(x[1], datatype=URIRef(x[3]), normalize=False).value is not None
+        except Exception:  # noqa: BLE001
+            return False
+    return False
+
+
+def triggers(graph, fmt, base=None, bind=None, extra=None):
     """Finding ids whose *input-side* trigger holds (see known_findings.d/C03.json).  Ordered."""
     out = []
     lits = list(literals_of(graph))
@@ -769,6 +805,9 @@ def triggers(graph, fmt, base=None, bind=None):
                     break
         if any(x[3] == XSD + "decimal" and is_canonical(x[1], x[3]) and not any(c in x[1] for c in ".eE") for x in lits):
             out.append("F15d")
+        if any(_bare_retyped(x) for x in lits) and not (extra or {}).get("canon"):
+            # (longturtle canon=True re-reads the graph through N-Triples first, which normalises these forms)
+            out.append("F15s")
     # F15e, F15f, F15h, F15o (Turtle family) and F15m, the non-IRI half of F15k (pretty-xml) were repaired in
     # /repo (ec2790c6, c1984258, fdf8d16b, 2521fbb8, d4c8e316, 83d416d7): no trigger any more
     # F15r (doList walking past rdf:nil) was repaired by 0dee69e9
@@ -791,6 +830,137 @@ def triggers(graph, fmt, base=None, bind=None):
     if fmt in XML_FAMILY + ("json-ld",) and base is not None and bad_relative_any(graph, base):
         out.append("F15g")
     return out
+
+
+# ---------------------------------------------------------------- what is still demanded inside a trigger
+def _norm_lit(k):
+    """constructor fixed point of a literal key (what every parser hands back, finding F15c)"""
+    if k[0] != "L" or k[3] is None:
+        return k
+    try:
+        l_ = Literal(k[1], datatype=URIRef(k[3]))
+        return ("L", str.__str__(l_), k[2], k[3])
+    except Exception:  # noqa: BLE001
+        return k
+
+
+def _cells(T):
+    """nodes (other than rdf:nil) that carry rdf:first or rdf:rest"""
+    return {t[0] for t in T if t[1][1] in (FIRST, REST) and t[0] != ("I", NIL)}
+
+
+def residual_ok(graph, fmt, base, bind, tr, A, B, exc):
+    """Inside the trigger region of the known findings tr: is everything the findings do NOT concern intact, and is
+    the damage the predicted one where a prediction is computable?
+      always      literals are compared up to Literal() normalisation of the INPUT side (F15c made a checkable statement)
+      F15, F15d   the predicted literal (six-digit double, decimal + '.0') must come back
+      F15i        exactly the triples with an unreachable blank-node subject are missing
+      F15g        triples with an IRI that does not resolve back are set aside (input side), triples with an IRI the
+                  input does not contain are set aside (output side)
+      F15j/n/l    triples touching a list cell (a blank node with rdf:first / rdf:rest) are set aside on both sides
+      F15k        rdf:type triples with an IRI object without XML-name tail are set aside; the only exception allowed is
+                  the XML parser's 'not well-formed'
+      F15p        rdf:XMLLiteral triples are set aside
+    any other exception, a timeout, or any other difference fails."""
+    if exc is not None:
+        if "F15k" in tr and exc == "parse:SAXParseException":
+            return True
+        # pretty-xml refuses a collection whose rdf:rest chain is cyclic
+        return "F15l" in tr and exc == "ser:ValueError" and rest_cycle(graph)
+    if "F15s" in tr:
+        def bare(k):
+            if k[0] == "L" and k[3] == XSD + "boolean" and k[1] in ("1", "0"):
+                return ("L", k[1], k[2], XSD + "integer")
+            if k[0] == "L" and k[3] == XSD + "decimal" and any(c in k[1] for c in "eE"):
+                try:
+                    return ("L", str.__str__(Literal(float(k[1]))), k[2], XSD + "double")
+                except ValueError:
+                    pass
+            return k
+        A = {tuple(bare(x) for x in t) for t in A}
+    A = {tuple(_norm_lit(x) for x in t) for t in A}
+    if "F15" in tr:
+        def six(k):
+            if k[0] == "L" and k[3] == XSD + "double":
+                try:
+                    v = float(k[1])
+                    if v == v and v not in (float("inf"), float("-inf")):
+                        return ("L", str.__str__(Literal(float("%e" % v))), k[2], k[3])
+                except ValueError:
+                    pass
+            return k
+        A = {tuple(six(x) for x in t) for t in A}
+    if "F15d" in tr:
+        def dec(k):
+            if k[0] == "L" and k[3] == XSD + "decimal" and not any(c in k[1] for c in ".eE") and is_canonical(k[1], k[3]):
+                return ("L", k[1] + ".0", k[2], k[3])
+            return k
+        A = {tuple(dec(x) for x in t) for t in A}
+    if "F15i" in tr:
+        inc = {}
+        for t in A:
+            if t[2][0] == "B":
+                inc.setdefault(t[2], []).append(t)
+        subs = {t[0] for t in A}
+        roots = [x for x in subs if x[0] == "I" or x not in inc]
+        out = {}
+        for t in A:
+            out.setdefault(t[0], []).append(t[2])
+        seen, todo = set(roots), list(roots)
+        while todo:
+            n = todo.pop()
+            for m in out.get(n, []):
+                if m not in seen:
+                    seen.add(m)
+                    todo.append(m)
+        A = {t for t in A if not (t[0][0] == "B" and t[0] not in seen)}
+    if "F15g" in tr and base is not None:
+        from urllib.parse import urljoin, urlsplit
+        b = urlsplit(base)
+        origin = b.scheme + "://" + b.netloc
+        inputs = {x[1] for t in A for x in t if x[0] == "I"} | {x[3] for t in A for x in t if x[0] == "L" and x[3]}
+
+        def resolve(rel):
+            r = urljoin(base, rel, allow_fragments=True)
+            return r + "#" if rel.endswith("#") and not r.endswith("#") else r     # as URIRef(value, base=) does
+
+        def images(u):
+            out = set()
+            if u.startswith(base):
+                out.add(resolve(u.replace(base, "", 1)))
+            if u.startswith(origin):
+                out.add(resolve(u[len(origin):] or "/"))
+            return out - {u}
+        moved = {u: images(u) for u in inputs}
+        bad = {u for u, im in moved.items() if im} | {v for im in moved.values() for v in im}
+
+        def touches(t, pred):
+            return any((x[0] == "I" and pred(x[1])) or (x[0] == "L" and x[3] and pred(x[3])) for x in t)
+        # an IRI that may be written as a relative reference resolving elsewhere, and the places it may land on
+        A = {t for t in A if not touches(t, lambda u: u in bad)}
+        B = {t for t in B if not touches(t, lambda u: u in bad or u not in inputs)}
+    if any(f in tr for f in ("F15j", "F15n", "F15l")):
+        ca, cb = _cells(A), _cells(B)
+        if "F15l" in tr:
+            # a further reference to a list head is written as rdf:nodeID of a node that is never described: references to
+            # property-less blank nodes are set aside on both sides
+            subs_a, subs_b = {t[0] for t in A}, {t[0] for t in B}
+            ca |= {t[2] for t in A if t[2][0] == "B" and t[2] not in subs_a}
+            cb |= {t[2] for t in B if t[2][0] == "B" and t[2] not in subs_b}
+            # ... or as an empty collection (rdf:nil) when the cell has been written already
+            ca.add(("I", NIL))
+            cb.add(("I", NIL))
+        A = {t for t in A if t[0] not in ca and t[2] not in ca}
+        B = {t for t in B if t[0] not in cb and t[2] not in cb}
+    if "F15k" in tr:
+        inputs = {x[1] for t in A for x in t if x[0] == "I"}
+        A = {t for t in A if not (t[1][1] == TYPE and t[2][0] == "I" and type_object_unsafe([[list(t[0]), list(t[1]), list(t[2])]]))}
+        B = {t for t in B if not (t[1][1] == TYPE and t[2][0] == "I" and
+                                  (t[2][1] not in inputs or type_object_unsafe([[list(t[0]), list(t[1]), list(t[2])]])))}
+    if "F15p" in tr:
+        A = {t for t in A if not (t[2][0] == "L" and t[2][3] == RDFNS + "XMLLiteral")}
+        B = {t for t in B if not (t[2][0] == "L" and t[2][3] == RDFNS + "XMLLiteral")}
+    return isomorphic(A, B)
 
 
 # ================================================================= suites
@@ -1222,7 +1392,7 @@ class TtlString(Suite):
 
 # ---------------------------------------------------------------- graph level: conformance only
 TRIGGER_NUM = {"F15": 1, "F15b": 2, "F15c": 3, "F15d": 4, "F15e": 5, "F15f": 6, "F15g": 7, "F15h": 8,
-               "F15i": 9, "F15j": 10, "F15k": 11, "F15l": 12, "F15m": 13, "F15n": 14, "F15o": 15, "F15p": 16, "F15r": 17}
+               "F15i": 9, "F15j": 10, "F15k": 11, "F15l": 12, "F15m": 13, "F15n": 14, "F15o": 15, "F15p": 16, "F15r": 17, "F15s": 18}
 FIXED_FINDINGS = {"F15b", "F15e", "F15f", "F15h", "F15m", "F15o", "F15r"}   # repaired in /repo
 BINDS = [None, None, [["ex", "http://e/"], ["ns", "http://e/ns#"]], [["", "http://e/"]], [["ex", "http://e/ns#"]]]
 BASES = [None, None, None, "http://e/", "http://e/", "http://other.org/"]
@@ -1250,6 +1420,9 @@ class RoundTrip(Suite):
         graph, tags = gen_graph(rng)
         case = {"fmt": FORMATS[i % len(FORMATS)], "graph": graph, "base": rng.choice(BASES), "bind": rng.choice(BINDS),
                 "tags": tags, "io": None}
+        if case["fmt"] == "longturtle" and rng.random() < 0.4:
+            case["extra"] = {"canon": True}      # the serialiser's own option: canonicalise before writing
+            case["tags"] = tags + ["canon"]
         # a quarter of the cases go through a real file of 3-10 kB and a binary source
         if (i // len(FORMATS)) % 4 == 3:
             case["graph"] = pad_graph(rng, graph)
@@ -1260,14 +1433,19 @@ class RoundTrip(Suite):
     def run_impl(self, case):
         if case["fmt"] in XML_FAMILY and xml_inexpressible(case["graph"]):
             return 1   # RDF/XML cannot express a predicate that is no XML name: outside the property
-        v, _ = roundtrip(case["graph"], case["fmt"], case["base"], case["bind"], io=case.get("io"))
-        return 1 if v == "ok" else 0
+        v, _ = roundtrip(case["graph"], case["fmt"], case["base"], case["bind"], extra=case.get("extra"), io=case.get("io"))
+        if v == "ok":
+            return 1
+        tr = triggers(case["graph"], case["fmt"], case["base"], case["bind"], case.get("extra"))
+        if tr and residual_ok(case["graph"], case["fmt"], case["base"], case["bind"], tr, _last["A"], _last["B"], _last["exc"]):
+            return 3    # not exact, but everything outside the known findings is intact / the damage is the predicted one
+        return 0
 
     def on_timeout(self, case):
         return 0
 
     def coq_case(self, case):
-        tr = triggers(case["graph"], case["fmt"], case["base"], case["bind"])
+        tr = triggers(case["graph"], case["fmt"], case["base"], case["bind"], case.get("extra"))
         return cN(TRIGGER_NUM[tr[0]] if tr else 0)
 
     def coq_obs(self, obs):
@@ -1279,8 +1457,20 @@ class RoundTrip(Suite):
     def features(self, case, obs):
         f = {"fmt_" + case["fmt"]: 1, "triples": len(case["graph"]), "ok": int(obs == 1),
              "base_given": int(case["base"] is not None), "prefixes_bound": int(case["bind"] is not None)}
-        tr = triggers(case["graph"], case["fmt"], case["base"], case["bind"])
+        tr = triggers(case["graph"], case["fmt"], case["base"], case["bind"], case.get("extra"))
         f["trigger_free"] = int(not tr)
+        fm = case["fmt"]
+        # how each case was judged (per format): exact round trip demanded and met / inside a trigger and exact anyway /
+        # inside a trigger and judged by the residual comparison (harness: residual_ok) / skipped as inexpressible
+        if fm in XML_FAMILY and xml_inexpressible(case["graph"]):
+            f["judged_%s_skipped_inexpressible" % fm] = 1
+        elif not tr:
+            f["judged_%s_exact" % fm] = 1
+        elif obs == 1:
+            f["judged_%s_in_trigger_exact" % fm] = 1
+        elif obs == 3:
+            f["judged_%s_in_trigger_residual" % fm] = 1
+        f["unjudged"] = 0
         for t in tr[:1]:
             f["trigger_" + t] = 1
         for t in set(case.get("tags", [])):
@@ -1805,9 +1995,10 @@ TRUSTED = [
     "sub-language, not a model of notation3.py: it is tied to notation3.py by comparing its triples with rdflib's parse of the "
     "same text. Python's value parsing behind the bare integer/boolean forms (Literal.value is not None) is not modelled: the "
     "generator uses -?[0-9]+ and true/false only; xsd:decimal / xsd:double shorthand (open findings F15, F15d) is not modelled",
-    "suite roundtrip is CONFORMANCE ONLY: no Coq model of the eight serialisers / six parsers; its verdict is computed by the "
-    "Python isomorphism oracle harness/c03.py:isomorphic (backtracking bijection search) and Python trigger predicates "
-    "harness/c03.py:triggers; the Coq side (rt_model/rt_spec) only compares two numbers",
+    "suite roundtrip is DIFFERENTIAL TESTING WITH A PYTHON ORACLE, NOT PROOF: there is no Coq model of the eight serialisers / "
+    "six parsers at graph level; the verdict is computed by harness/c03.py:isomorphic (backtracking blank-node bijection search), "
+    "the trigger predicates harness/c03.py:triggers and, inside a trigger, harness/c03.py:residual_ok (Python); the Coq side "
+    "(rt_model / rt_spec, lemma C03_rt_spec_glue) only compares two numbers and carries no obligation",
 ]
 ASSUMPTIONS = [
     "strings are Python str values: every code point < 0x110000 (pystr_triple); lone surrogates are not generated (UTF-8 output)",
@@ -1815,8 +2006,13 @@ ASSUMPTIONS = [
     "the shape of the reader's r_nodeid; language tags match the language-tag pattern on the whole string",
     "round trips with a base pass the same base to the parser (publicID), as a user reading back his own file would",
     "a predicate that cannot be written as an XML QName makes a graph inexpressible in RDF/XML (skipped for xml, pretty-xml)",
-    "known-finding triggers (F15..F15q) are input-side predicates that over-approximate where each defect can manifest; inside a "
-    "trigger region the round-trip verdict is not predicted, so further defects there are not looked for",
+    "known-finding triggers (F15..F15s) are input-side predicates that over-approximate where each defect can manifest; inside a "
+    "trigger the case is still judged: no exception other than the documented one (pretty-xml: SAXParseException for F15k, "
+    "ValueError on a cyclic collection for F15l), no timeout, literals compared up to Literal() normalisation of the input (F15c), "
+    "the predicted literal for F15 / F15d / F15s, exactly the unreachable blank nodes missing for F15i, and for F15g / F15j / F15n / "
+    "F15l / F15k / F15p the graph minus the triples the finding concerns (IRIs that do not resolve back and their images; triples "
+    "touching list cells, property-less blank-node objects and rdf:nil objects; rdf:type with an unsafe IRI; XMLLiterals) must "
+    "round-trip - what is set aside there is NOT examined",
     "hext_row: if the reader under test scopes blank-node labels to the document (fresh BNodes), labels are compared as "
     "'function of the label computed from the column' instead of literally (HextRow.relabel)",
 ]
